@@ -232,7 +232,16 @@ func (VictimOracle) AfterCycle(r *Run, cycle int, all []Decision) {
 			delete(nominatedNow, d.Pod)
 		}
 	}
-	for _, d := range ds {
+	evictedAt := map[string]int{}     // pod -> index of its eviction in this cycle
+	evictedIn := map[string]string{} // pod -> action that evicted it
+	for i, d := range ds {
+		if d.Kind == "evict" {
+			if _, ok := evictedAt[d.Pod]; !ok {
+				evictedAt[d.Pod], evictedIn[d.Pod] = i, d.Action+"/"+d.Preemptor // one commit = one action serving one preemptor
+			}
+		}
+	}
+	for di, d := range ds {
 		if d.Kind != "evict" {
 			continue
 		}
@@ -282,7 +291,12 @@ func (VictimOracle) AfterCycle(r *Run, cycle int, all []Decision) {
 		} else {
 			node, ok := pipedPod[d.Action][d.Pod]
 			if !ok {
-				r.Fail("C06", "consolidation_without_replacement", "cycle %d: consolidation evicted %s without re-placing it", cycle, d.Pod)
+				rule, what := "consolidation_without_replacement", ""
+				if !p.Active && d.Node == "" {
+					// the "victim" was a pending pod that an earlier action of this cycle had only nominated
+					rule, what = rule+"_of_nominated_pod", " (a pending pod that was only nominated earlier in this cycle)"
+				}
+				r.Fail("C06", rule, "cycle %d: consolidation evicted %s%s without re-placing it", cycle, d.Pod, what)
 			} else if node == d.Node {
 				r.Probe("c06_consolidation_same_node")
 			}
@@ -300,12 +314,19 @@ func (VictimOracle) AfterCycle(r *Run, cycle int, all []Decision) {
 				after, deleting, nominated := 0, 0, 0
 				if set != nil {
 					for _, sp := range set.Pods {
-						if active[sp.Name] {
+						if at, ok := evictedAt[sp.Name]; active[sp.Name] || (ok && at > di && evictedIn[sp.Name] != d.Action+"/"+d.Preemptor && sp.Active) {
+							// active at the end of the cycle, or still active when this action ran (a later action evicted it:
+							// that eviction is judged on its own)
 							after++
-						} else if nominatedNow[sp.Name] {
+						} else if nominatedNow[sp.Name] && !sp.Active {
+							// nominated in this cycle and not running before it. A pod that was running, was evicted
+							// and re-nominated elsewhere in this cycle (moved) is a victim like any other.
 							nominated++
 						}
 						if sp.Deleting && !podTerminated(sp.Pod) {
+							deleting++
+						} else if at, ok := evictedAt[sp.Name]; ok && at < di && evictedIn[sp.Name] != d.Action+"/"+d.Preemptor && sp.Active {
+							// evicted earlier in this cycle by another commit: terminating by the time this scenario is validated
 							deleting++
 						}
 					}
